@@ -310,7 +310,8 @@ class BayesianART(BaseART):
             Updated cluster weight.
 
         """
-        return np.concatenate([i, params["cov_init"].flatten(), [1]])
+        cov_init = np.asarray(params["cov_init"], dtype=float)
+        return np.concatenate([i, cov_init.flatten(), [1]])
 
     def get_cluster_centers(self) -> List[np.ndarray]:
         """Get the centers of each cluster, used for regression.
